@@ -140,7 +140,16 @@ structure UnfOK (s s' : St) : Prop where
   feeBurn : s'.ghost.feeBurn = s.ghost.feeBurn
   withdrawn : s'.ghost.withdrawn = s.ghost.withdrawn
 
-set_option maxRecDepth 8000 in
+theorem reward_inv {s s1 : St} {to : Hex} {amt : Nat} (h : s.reward true to amt = some s1) :
+    ∃ a a', s.findAcct true to = some a ∧ addBalance a amt = some a' ∧ s1 = s.setAcct true a' := by
+  unfold St.reward at h
+  split at h; · cases h
+  rename_i a ha
+  split at h; · cases h
+  rename_i a' ha'
+  injection h with h
+  exact ⟨a, a', ha, ha', h.symm⟩
+
 theorem unfreeze_step_ok {s s' : St} {height : Int} {k : String} {st : Stake}
     (h : unfreezeStep height (.ok s) (k, st) = .ok s') (hi : Inv0 s) (hb : holdings s < (two255 : Int))
     (hk : s.frozen.fin[k]? = some st) :
@@ -150,12 +159,8 @@ theorem unfreeze_step_ok {s s' : St} {height : Int} {k : String} {st : Stake}
   · split at h; · cases h
     rename_i s1 hs1
     injection h with h; subst h
-    unfold St.reward at hs1
-    split at hs1; · cases hs1
-    rename_i a ha
-    split at hs1; · cases hs1
-    rename_i a' ha'
-    injection hs1 with hs1; subst hs1
+    obtain ⟨a, a', ha, ha', hs1⟩ := reward_inv hs1
+    subst hs1
     rw [findAcct_true] at ha
     obtain ⟨hkey, hpow⟩ := hi.frozenKey k st hk
     have hamt := powerToAmount_exact hpow
